@@ -51,6 +51,49 @@ assert outs == {2}, outs                      # no preemption: never lost
 outs, n = explore_threads("racy", 1)
 assert outs == {1, 2} and n > 2, (outs, n)    # one preemption between read and write loses an update
 
+# ---- E4 with synchronisation objects owned by the scheduler: a module that creates real locks is made cooperative; the
+# correctly locked counter has one outcome under any number of preemptions, opposite lock orders deadlock in some schedule
+src2 = '''
+import threading
+A = threading.Lock()
+B = threading.Lock()
+class Box:
+    def __init__(self):
+        self.v = 0
+        self.lock = threading.Lock()
+def locked_inc(box):
+    with box.lock:
+        t = box.v
+        t = t + 1
+        box.v = t
+def ab(box):
+    with A:
+        with B:
+            box.v += 1
+def ba(box):
+    with B:
+        with A:
+            box.v += 1
+'''
+path2 = os.path.join(d, "toy_locks.py"); open(path2, "w").write(src2)
+spec = importlib.util.spec_from_file_location("toy_locks", path2); toy2 = importlib.util.module_from_spec(spec); spec.loader.exec_module(toy2)
+from vf.sched import own_synchronisation, CoopLock
+assert own_synchronisation([toy2]) == 3 and isinstance(toy2.A, CoopLock) and isinstance(toy2.Box().lock, CoopLock)
+def explore_locks(fns, bound):
+    outs = set()
+    def run(ctx):
+        own_synchronisation([toy2]); toy2.A, toy2.B = CoopLock(), CoopLock()
+        box = toy2.Box()
+        sch = Sched(ctx, [lambda f=f: getattr(toy2, f)(box) for f in fns], lambda code: code.co_filename == path2)
+        sch.run(timeout=20)
+        return (box.v, sch.abort)
+    ex = Explorer(run, cache=False, bound=bound, order="dfs"); ex.check = lambda c, o: outs.add(o); ex.explore()
+    return outs, ex.executions
+outs, n = explore_locks(["locked_inc", "locked_inc", "locked_inc"], 2)
+assert outs == {(3, None)} and n > 10, (outs, n)            # mutual exclusion holds in every schedule, nothing hangs
+outs, n = explore_locks(["ab", "ba"], 1)
+assert (2, None) in outs and any(a == "deadlock" for _, a in outs), outs      # one preemption between the two acquires deadlocks
+
 # ---- E5: a leaking cache is invisible to single cases and visible to the sequence explorer
 CACHE = {}
 def op(kind, case):
